@@ -153,8 +153,9 @@ impl KBucket {
         }
     }
 
-    fn remove_node(&mut self, node_id: &NodeId) {
-        self.nodes.retain(|n| &n.id != node_id);
+    fn remove_node(&mut self, node_id: &NodeId) -> Option<NodeInfo> {
+        let index = self.nodes.iter().position(|n| &n.id == node_id)?;
+        Some(self.nodes.remove(index))
     }
 
     fn get_nodes(&self) -> &[NodeInfo] {
@@ -192,9 +193,9 @@ impl KademliaRoutingTable {
         self.buckets[bucket_index].add_node(node)
     }
 
-    fn remove_node(&mut self, node_id: &NodeId) {
+    fn remove_node(&mut self, node_id: &NodeId) -> Option<NodeInfo> {
         let bucket_index = self.get_bucket_index(node_id);
-        self.buckets[bucket_index].remove_node(node_id);
+        self.buckets[bucket_index].remove_node(node_id)
     }
 
     fn find_closest_nodes(&self, key: &DhtKey, count: usize) -> Vec<NodeInfo> {
@@ -423,7 +424,7 @@ impl GeographicDiversityEnforcer {
         *self.region_counts.entry(region).or_insert(0) += 1;
     }
 
-    fn _remove(&mut self, region: GeographicRegion) {
+    fn remove(&mut self, region: GeographicRegion) {
         if let Some(count) = self.region_counts.get_mut(&region) {
             *count = count.saturating_sub(1);
         }
@@ -515,6 +516,8 @@ pub struct DhtCoreEngine {
     ip_diversity_enforcer: Arc<RwLock<IPDiversityEnforcer>>,
     eviction_manager: Arc<RwLock<EvictionManager>>,
     geographic_diversity_enforcer: Arc<RwLock<GeographicDiversityEnforcer>>,
+    /// Routing-table entries that hold IP-diversity / region slots
+    slot_holders: Arc<RwLock<std::collections::HashSet<NodeId>>>,
 
     // Network query components
     /// Transport handle for sending messages to remote peers
@@ -588,6 +591,7 @@ impl DhtCoreEngine {
             ip_diversity_enforcer,
             eviction_manager,
             geographic_diversity_enforcer,
+            slot_holders: Arc::new(RwLock::new(std::collections::HashSet::new())),
             transport: None,
             pending_requests: Arc::new(RwLock::new(LruCache::new(
                 NonZeroUsize::new(MAX_PENDING_DHT_REQUESTS)
@@ -1202,9 +1206,14 @@ impl DhtCoreEngine {
 
     /// Handle node failure
     pub async fn handle_node_failure(&mut self, failed_node: NodeId) -> Result<()> {
-        // Remove from routing table
-        let mut routing = self.routing_table.write().await;
-        routing.remove_node(&failed_node);
+        // Remove from routing table and give its admission slots back
+        let removed = {
+            let mut routing = self.routing_table.write().await;
+            routing.remove_node(&failed_node)
+        };
+        if let Some(node) = removed {
+            self.release_admission_slots(&node).await;
+        }
 
         // Schedule repairs for affected data
         let _replication = self.replication_manager.write().await;
@@ -1218,10 +1227,13 @@ impl DhtCoreEngine {
     /// This is called when a node fails security validation or is detected
     /// as malicious through Sybil/collusion detection.
     pub async fn evict_node(&self, node_id: &NodeId, reason: EvictionReason) -> Result<()> {
-        // 1. Remove from routing table
-        {
+        // 1. Remove from routing table and give its admission slots back
+        let removed = {
             let mut routing = self.routing_table.write().await;
-            routing.remove_node(node_id);
+            routing.remove_node(node_id)
+        };
+        if let Some(node) = removed {
+            self.release_admission_slots(&node).await;
         }
 
         // 2. Update security metrics based on eviction reason
@@ -1306,6 +1318,41 @@ impl DhtCoreEngine {
         self.close_group_validator.clone()
     }
 
+    /// Parse the IP out of a node address ("ip:port" or just "ip").
+    fn admission_ip(address: &str) -> Option<IpAddr> {
+        if let Ok(socket) = address.parse::<SocketAddr>() {
+            Some(socket.ip())
+        } else {
+            address.parse::<IpAddr>().ok()
+        }
+    }
+
+    /// Give back the slots one admission took at the given levels.
+    async fn release_slots(&self, ip: IpAddr, ip_slot: bool, region_slot: bool) {
+        if ip_slot {
+            let mut enforcer = self.ip_diversity_enforcer.write().await;
+            if let Ok(analysis) = enforcer.analyze_unified(ip) {
+                enforcer.remove_unified(&analysis);
+            }
+        }
+        if region_slot {
+            self.geographic_diversity_enforcer
+                .write()
+                .await
+                .remove(GeographicRegion::from_ip(ip));
+        }
+    }
+
+    /// Return the slots a removed routing-table entry was holding, if it held any.
+    async fn release_admission_slots(&self, node: &NodeInfo) {
+        if !self.slot_holders.write().await.remove(&node.id) {
+            return;
+        }
+        if let Some(ip) = Self::admission_ip(&node.address) {
+            self.release_slots(ip, true, true).await;
+        }
+    }
+
     /// Add a node to the DHT with security checks
     pub async fn add_node(&mut self, node: NodeInfo) -> Result<()> {
         // 1. Security Check: Close Group Validator
@@ -1318,72 +1365,79 @@ impl DhtCoreEngine {
             }
         }
 
-        // 2. Security Check: IP Diversity (both IPv4 and IPv6)
-        {
-            // Parse IP address from node.address string
-            // address comes as "ip:port" or just "ip"
-            let ip_addr: Option<IpAddr> = if let Ok(socket) = node.address.parse::<SocketAddr>() {
-                Some(socket.ip())
-            } else {
-                node.address.parse::<IpAddr>().ok()
-            };
+        // The gates below hand out one slot per admitted node. A node that is already
+        // listed keeps the slots it has; only a new entry takes new ones.
+        let already_admitted = self.slot_holders.read().await.contains(&node.id);
+        let ip_addr = if already_admitted {
+            None
+        } else {
+            Self::admission_ip(&node.address)
+        };
 
-            if let Some(ip) = ip_addr {
-                let mut enforcer = self.ip_diversity_enforcer.write().await;
-                match enforcer.analyze_unified(ip) {
-                    Ok(analysis) => {
-                        if !enforcer.can_accept_unified(&analysis) {
-                            tracing::warn!("Node rejected due to IP diversity limits: {:?}", ip);
-                            return Err(anyhow::anyhow!(
-                                "IP diversity limits exceeded for address {ip}"
-                            ));
-                        }
-                        // Record valid node - propagate error as this is a critical security operation
-                        enforcer.add_unified(&analysis).map_err(|e| {
-                            tracing::error!(
-                                "Failed to record node IP for diversity tracking: {:?}",
-                                e
-                            );
-                            anyhow::anyhow!("IP diversity tracking failed: {e:?}")
-                        })?;
+        // 2. Security Check: IP Diversity (both IPv4 and IPv6)
+        let mut ip_slot_taken = false;
+        if let Some(ip) = ip_addr {
+            let mut enforcer = self.ip_diversity_enforcer.write().await;
+            match enforcer.analyze_unified(ip) {
+                Ok(analysis) => {
+                    if !enforcer.can_accept_unified(&analysis) {
+                        tracing::warn!("Node rejected due to IP diversity limits: {:?}", ip);
+                        return Err(anyhow::anyhow!(
+                            "IP diversity limits exceeded for address {ip}"
+                        ));
                     }
-                    Err(e) => {
-                        tracing::debug!("Could not analyze IP {:?}: {:?}", ip, e);
-                        // Continue without IP diversity check if analysis fails
-                    }
+                    // Record valid node - propagate error as this is a critical security operation
+                    enforcer.add_unified(&analysis).map_err(|e| {
+                        tracing::error!("Failed to record node IP for diversity tracking: {:?}", e);
+                        anyhow::anyhow!("IP diversity tracking failed: {e:?}")
+                    })?;
+                    ip_slot_taken = true;
+                }
+                Err(e) => {
+                    tracing::debug!("Could not analyze IP {:?}: {:?}", ip, e);
+                    // Continue without IP diversity check if analysis fails
                 }
             }
         }
 
         // 3. Security Check: Geographic Diversity
-        {
-            // Parse IP address from node.address string (reuse parsed IP from above)
-            let ip_addr: Option<IpAddr> = if let Ok(socket) = node.address.parse::<SocketAddr>() {
-                Some(socket.ip())
-            } else {
-                node.address.parse::<IpAddr>().ok()
-            };
-
-            if let Some(ip) = ip_addr {
-                let region = GeographicRegion::from_ip(ip);
-                let mut enforcer = self.geographic_diversity_enforcer.write().await;
-                if !enforcer.can_accept(region) {
-                    tracing::warn!(
-                        "Node rejected due to geographic diversity limits: {:?} in region {:?}",
-                        ip,
-                        region
-                    );
-                    return Err(anyhow::anyhow!(
-                        "Geographic diversity limits exceeded for region {region:?} (IP: {ip})"
-                    ));
-                }
-                enforcer.add(region);
+        let mut region_slot_taken = false;
+        if let Some(ip) = ip_addr {
+            let region = GeographicRegion::from_ip(ip);
+            let mut enforcer = self.geographic_diversity_enforcer.write().await;
+            if !enforcer.can_accept(region) {
+                drop(enforcer);
+                tracing::warn!(
+                    "Node rejected due to geographic diversity limits: {:?} in region {:?}",
+                    ip,
+                    region
+                );
+                // An admission that fails part-way consumes nothing
+                self.release_slots(ip, ip_slot_taken, false).await;
+                return Err(anyhow::anyhow!(
+                    "Geographic diversity limits exceeded for region {region:?} (IP: {ip})"
+                ));
             }
+            enforcer.add(region);
+            region_slot_taken = true;
         }
 
         // 4. Add to routing table
-        let mut routing = self.routing_table.write().await;
-        routing.add_node(node)?;
+        let node_id = node.id.clone();
+        let inserted = {
+            let mut routing = self.routing_table.write().await;
+            routing.add_node(node)
+        };
+        if let Err(e) = inserted {
+            if let Some(ip) = ip_addr {
+                self.release_slots(ip, ip_slot_taken, region_slot_taken)
+                    .await;
+            }
+            return Err(e);
+        }
+        if ip_slot_taken || region_slot_taken {
+            self.slot_holders.write().await.insert(node_id);
+        }
 
         // 5. Update Metrics
         // (Placeholder: Add metric for new node joining if available)
